@@ -41,6 +41,9 @@ pub struct CrashScript {
     pub stride: usize,
     #[serde(default)]
     pub fault: Option<Fault>,
+    /// bucket exhaustion runs: the first sync operation that fails is reported as a Fault record
+    #[serde(default)]
+    pub exhaust: bool,
 }
 
 #[derive(Deserialize, Clone, Debug)]
@@ -57,7 +60,7 @@ fn eio() -> i32 {
 }
 
 /// Open the image in `dir` and observe it.  Returns (record fields, recovery events).
-fn check_image<T: HashAlgorithm>(dir: &Path, cfg: &StoreCfg, conc: &Concretisation, probe: bool) -> (J, Vec<Ev>) {
+fn check_image<T: HashAlgorithm>(dir: &Path, cfg: &StoreCfg, conc: &Concretisation, probe: bool, decode: bool) -> (J, Vec<Ev>) {
     rec::set_dir(dir);
     rec::start(None);
     let opened = std::panic::catch_unwind(std::panic::AssertUnwindSafe(|| World::<T>::new(dir.to_path_buf(), cfg.clone(), conc.clone())));
@@ -72,7 +75,11 @@ fn check_image<T: HashAlgorithm>(dir: &Path, cfg: &StoreCfg, conc: &Concretisati
         }
         Ok(Ok(mut w)) => {
             out["res"] = json!("Ok");
+            // C16: the recovered image must decode to a well-formed structure too
+            w.decode = decode;
+            w.decode_lite = true;
             out["st"] = w.observe();
+            w.decode = false;
             // proofs through a session and one further commit + read-back
             let mut cont_ok = true;
             let mut msg = String::new();
@@ -126,6 +133,7 @@ struct ImgCtx<'a> {
     n_images: u64,
     rec_streams: Vec<Vec<Ev>>,
     seen_streams: std::collections::BTreeSet<String>,
+    decode: bool,
 }
 
 fn emit_image<T: HashAlgorithm>(
@@ -142,7 +150,7 @@ fn emit_image<T: HashAlgorithm>(
         return Vec::new();
     }
     watchdog::progress(&format!("run {} step {} image {kind} k={k} {label}", c.run, c.idx));
-    let (mut rec, events) = check_image::<T>(&c.img_dir, c.cfg, c.conc, true);
+    let (mut rec, events) = check_image::<T>(&c.img_dir, c.cfg, c.conc, true, c.decode);
     rec["ev"] = json!("Image");
     rec["op"] = c.step.clone();
     rec["kind"] = json!(kind);
@@ -302,7 +310,7 @@ pub fn run<T: HashAlgorithm>(cs: &CrashScript, scratch: &Path, out: &mut dyn Wri
             writeln!(evout, "{}", json!({"ev":"ret","run":sc.run,"i":idx}))?;
             let mut images = Vec::new();
             let mut c = ImgCtx { img_dir: img_dir.clone(), cfg: &sc.cfg, conc: &sc.conc, step, run: sc.run, idx, n_images: 0,
-                                 rec_streams: Vec::new(), seen_streams: Default::default() };
+                                 rec_streams: Vec::new(), seen_streams: Default::default(), decode: sc.decode };
             enumerate_images::<T>(&mut c, pre.as_ref().unwrap(), &events, cs, &mut rng, &mut images);
             for im in images {
                 writeln!(out, "{}", im)?;
@@ -321,15 +329,22 @@ pub fn run<T: HashAlgorithm>(cs: &CrashScript, scratch: &Path, out: &mut dyn Wri
             }
             rec::set_dir(&dir);
         }
-        if fault_here {
+        let exhausted = cs.exhaust && is_sync_op(&a) && jstr(&ev, "res").starts_with("Err:");
+        if fault_here || exhausted {
             // C14: the outcome of the failed call, the handle's state, and what a reopen shows
-            let mut f = json!({"ev":"Fault","run":sc.run,"i":idx,"op":step,"k":cs.fault.as_ref().unwrap().k,
-                               "errno":cs.fault.as_ref().unwrap().errno,"persistent":cs.fault.as_ref().unwrap().persistent,
+            let (fk, ferrno, fpers) = cs.fault.as_ref().map(|f| (f.k, f.errno, f.persistent)).unwrap_or((0, 0, false));
+            let injected = injected || exhausted;
+            let mut f = json!({"ev":"Fault","run":sc.run,"i":idx,"op":step,"k":fk,
+                               "errno":ferrno,"persistent":fpers,"exhausted":exhausted,
                                "injected":injected,"res":ev.get("res").cloned().unwrap_or(J::Null),
                                "isErr": jstr(&ev, "res").starts_with("Err:")});
             if let Some(ie) = events.iter().find(|e| e.injected) {
                 f["injFile"] = json!(if ie.file.starts_with("rollback.") { "seg".to_string() } else { ie.file.clone() });
                 f["injKind"] = json!(ie.kind.clone());
+            }
+            if exhausted {
+                f["injFile"] = json!("ht-buckets");
+                f["injKind"] = json!("exhaustion");
             }
             if let Some(n) = w.nomt.as_ref() {
                 f["poisoned"] = json!(n.is_poisoned());
@@ -347,7 +362,7 @@ pub fn run<T: HashAlgorithm>(cs: &CrashScript, scratch: &Path, out: &mut dyn Wri
                 f["next"] = json!(r.unwrap_or_else(|_| "PANIC".into()));
             }
             w.close();
-            let (img, _) = check_image::<T>(&dir, &sc.cfg, &sc.conc, true);
+            let (img, _) = check_image::<T>(&dir, &sc.cfg, &sc.conc, true, sc.decode);
             f["reopen"] = img;
             writeln!(out, "{}", f)?;
             break;
@@ -411,7 +426,8 @@ pub fn main(args: &[String]) -> anyhow::Result<()> {
     let mut evout = std::io::BufWriter::new(std::fs::File::create(&args[2])?);
     let scratch = PathBuf::from(&args[3]);
     std::fs::create_dir_all(&scratch)?;
-    watchdog::start(60, Some(PathBuf::from(&args[1]).with_extension("hang")));
+    let wd = std::env::var("NVH_WATCHDOG").ok().and_then(|s| s.parse().ok()).unwrap_or(60);
+    watchdog::start(wd, Some(PathBuf::from(&args[1]).with_extension("hang")));
     if std::env::var("NVH_DEBUG").is_err() {
         std::panic::set_hook(Box::new(|_| {}));
     }
